@@ -1218,6 +1218,8 @@ func (p *parser) parseBlock(block text.BlockReader, parent ast.Node, pc Context)
 		if line == nil {
 			break
 		}
+		// a backslash escapes the character that follows it on the same line only
+		escaped = false
 		lineLength := len(line)
 		var lineBreakFlags uint8
 		hasNewLine := line[lineLength-1] == '\n'
